@@ -2,6 +2,7 @@
 from rules import tables as T
 from rules import widths as W
 from rules import misc as M
+from rules import builders as B
 
 
 def run(ctx):
@@ -12,6 +13,7 @@ def run(ctx):
     ctx.run(W.flw12_widen_before_subtract)
     ctx.run(W.flt1_lossless_float_codec_compares_bits)
     ctx.run(M.lit1_null_patterns)
+    ctx.run(B.pan7_empty_batch_is_applicable)
     return ctx.finish(
         'Static rules: the ingestion message codec and the response codec map every variant to '
         'union members the reader maps back to the same variant; each narrow integer layout is '
